@@ -63,6 +63,19 @@ class Box:
     def own_snapshot(self):
         return list(self.own)
 
+    def make_own_list_bare(self, n):
+        # bare managed(): the typeid is derived from the type of the value
+        self.own = list(range(n))
+        return managed(self.own)
+
+    def make_child_bare(self, v):
+        # a user class registered under its own name, handed out with a bare managed(): the child stays reachable here
+        self.child = Box(v)
+        return managed(self.child)
+
+    def child_value(self):
+        return self.child.v
+
     def share_own(self):
         # hand out another proxy to the SAME object (it is hosted under the same id as long as it is still hosted)
         if not hasattr(self, 'own'):
